@@ -1,6 +1,7 @@
 \* C17: sentences of the documented grammar (one part, or one part + a part of a pool of 48)
 SPECIFICATION Spec
 CONSTANT Wide = TRUE
+CONSTANT DateOnly = FALSE
 CONSTANT ValidDates <- SentenceDates
 INVARIANT WellFormedAccepted
 CHECK_DEADLOCK FALSE
